@@ -52,7 +52,7 @@ CLAIMS = {
         "histories of stop/pause/resume/deploy/rollout with hostile messages, built-in and custom 503 pages, body text compared byte for byte.",
    note=TB + "Modelled: html/template text-context escaper. The concurrent clause (requests arriving at any time) is carried by the proxy engine (C07)."),
 
-'C14': dict(engine='buffer+control', technique='Lean 4 proof (invariants by induction over write sequences; middleware over handler event traces) + differential correspondence run incl. an exhaustive small scope',
+'C14': dict(engine='buffer+control+faults', technique='Lean 4 proof (invariants by induction over write sequences; middleware over handler event traces) + differential correspondence run incl. an exhaustive small scope',
    text="Theorems (all sizes, chunkings, limits): a body within the limit is accepted and delivered byte-exact for every chunking; memory "
         "never holds more than buffer-memory bytes, a spill exists iff more was accepted and memory is then exactly full; overflow iff a "
         "write would pass max-bytes (exactly max-bytes accepted, one more rejected); request middleware: over the limit => 413 and the next "
@@ -93,7 +93,7 @@ CLAIMS = {
         "in classes F2' (served by a replaced target after deploy returned), F12 (overlapping drain returns at once) and F16 (overlapping "
         "deploys orphan a load balancer): kernel-checked witnesses, each replayed on the real code every run.",
    note=TB + "M4 is an interpreter of schedules; its atomic steps follow the code incl. its known defects. Partial: the theorems are about the model's step functions (local), whole-schedule invariants are carried by kernel-checked witnesses/tests and the correspondence run; probe I/O kinds are abstracted."),
- 'C07': dict(engine='proxy', technique='Lean 4 proof (gate semantics at step level + kernel-checked counter-examples) + differential correspondence run under a deterministic scheduler',
+ 'C07': dict(engine='proxy+control', technique='Lean 4 proof (gate semantics at step level + kernel-checked counter-examples) + differential correspondence run under a deterministic scheduler',
    text="Proved: a request reaching a paused gate is held with deadline arrival+max-pause and claims nothing; it moves only on release "
         "(stopped => 503, else proceeds) or at its deadline (504), not earlier; the health-check GET gets 200 whenever the gate is not "
         "running; a repeated pause does not release waiters. The clauses 'forwarded to the targets the service has at that moment' and "
